@@ -79,7 +79,10 @@ PROPS = {
                     level_note='Proved: all statements about the model, for all inputs. Tied by the differential run only: that the model is the code '
                                '(generator-bounded: payloads up to 20 kB, JSON depth 3, error nesting 2). Modelled, not verified: encoding/json. '
                                'Timestamps are compared only as "present and an RFC 3339 time". Message texts are valid UTF-8 (invalid bytes would be '
-                               'replaced by U+FFFD by encoding/json).',
+                               'replaced by U+FFFD by encoding/json). For an unmarshalable event payload the CONTENT of the event member is not part of the '
+                               'statement (the spec demands the member and valid JSON); the model nevertheless mirrors the dump encoding/json makes of the marshal '
+                               'error per kind (unsupported type / unsupported value NaN,+Inf,-Inf / failing Marshaler), and the decoder maps every other value text '
+                               'to NaN, the float the harness then builds, so that every decodable input denotes what the harness really passes.',
                     technique='machine-checked proof in Coq over hand-written model + model/implementation correspondence check',
                     design_ref='DESIGN.md section 8, E7 (C15)')),
 }
